@@ -44,7 +44,7 @@ fn cfg_of(d: &FnDesc) -> Cfg {
 #[derive(Clone, Debug)]
 enum Op {
     /// `err`: the body (if it runs) returns Err with a unique value (Result functions only)
-    Call { f: usize, slot: u32, err: bool },
+    Call { f: usize, slot: u32, err: bool, stale: bool },
     InvWith { f: usize, slots: Vec<u32> },
     InvAllWith { pairs: Vec<(usize, Vec<u32>)> },
     Group { kind: u8, name: String },
@@ -56,7 +56,7 @@ enum Op {
 }
 fn op_json(o: &Op) -> Value {
     match o {
-        Op::Call { f, slot, err } => json!({"call": f, "slot": slot, "err": err}),
+        Op::Call { f, slot, err, stale } => json!({"call": f, "slot": slot, "err": err, "stale": stale}),
         Op::InvWith { f, slots } => json!({"invalidate_with": f, "slots": slots}),
         Op::InvAllWith { pairs } => json!({"invalidate_all_with": pairs}),
         Op::Group { kind, name } => {
@@ -110,11 +110,12 @@ fn pick_functions(rng: &mut Rng, focus: &str) -> Vec<&'static FnDesc> {
     let no_ttl = cfg!(feature = "noclock");
     let cand: Vec<&'static FnDesc> = corpus::FUNCS
         .iter()
-        .filter(|d| !d.has_invalidate_on && !d.has_cache_if)
+        .filter(|d| (!d.has_invalidate_on || focus == "C01") && !d.has_cache_if)
         .filter(|d| !(no_ttl && d.ttl.is_some()))
         .filter(|d| match focus {
             "C14" => true,
             "C03" => !d.scope_thread && d.ttl.is_none() && d.max_memory.is_none(),
+            "C01" => !d.scope_thread,
             "C09" => !d.scope_thread && d.is_result && d.limit.is_none() && d.ttl.is_none() && d.max_memory.is_none(),
             "C07" => !d.scope_thread && d.limit.is_some() && d.ttl.is_none() && d.max_memory.is_none() && matches!(d.policy, "fifo" | "lru"),
             "C08" => !d.scope_thread && d.limit.is_some() && d.ttl.is_none() && d.max_memory.is_none() && matches!(d.policy, "lfu" | "arc" | "tlru"),
@@ -176,6 +177,7 @@ fn gen_scenario(seed: u64, index: u64, focus: &str, jitter: bool) -> Scenario {
             let f = rng.usize(fns.len());
             let (w_invw, w_invall, w_group, w_stats, w_adv) = match focus {
                 "C03" | "C14" | "C09" | "C07" | "C08" => (0, 0, 0, 2, 0),
+                "C01" => (8, 3, 6, 2, if any_ttl { 5 } else { 0 }),
                 "C15" => (6, 3, 5, 6, if any_ttl { 5 } else { 0 }),
                 "C12" => (0, 0, 16, 26, 0),
                 _ => (14, 6, 10, 5, if any_ttl { 5 } else { 0 }),
@@ -236,7 +238,9 @@ fn gen_scenario(seed: u64, index: u64, focus: &str, jitter: bool) -> Scenario {
             }
             let slot = fns[f].slots[rng.skewed(fns[f].slots.len())];
             let err = fns[f].d.is_result && rng.chance(1, 3);
-            p.push(Op::Call { f, slot, err });
+            // invalidate_on verdict scripted per call (only functions that have one consult it)
+            let stale = fns[f].d.has_invalidate_on && rng.chance(1, 3);
+            p.push(Op::Call { f, slot, err, stale });
         }
         progs.push(p);
     }
@@ -248,20 +252,20 @@ fn gen_scenario(seed: u64, index: u64, focus: &str, jitter: bool) -> Scenario {
             let t = fns[fi].d.ttl.unwrap() as i64;
             let ss: Vec<u32> = fns[fi].slots.iter().copied().take(1 + rng.usize(2)).collect();
             for s in &ss {
-                prelude.push(Op::Call { f: fi, slot: *s, err: false });
+                prelude.push(Op::Call { f: fi, slot: *s, err: false, stale: false });
             }
             prelude.push(Op::Advance(t * 1_000_000_000));
             // the threads only look keys up (no invalidation that would wipe the evidence)
             for p in progs.iter_mut() {
                 let extra = rng.usize(3);
                 let is_res = fns[fi].d.is_result;
-                let mut q: Vec<Op> = ss.iter().map(|s| Op::Call { f: fi, slot: *s, err: is_res && rng.chance(1, 2) }).collect();
+                let mut q: Vec<Op> = ss.iter().map(|s| Op::Call { f: fi, slot: *s, err: is_res && rng.chance(1, 2), stale: false }).collect();
                 if rng.chance(1, 2) {
                     q.reverse();
                 }
                 for _ in 0..extra {
                     let s = fns[fi].slots[rng.usize(fns[fi].slots.len())];
-                    q.push(Op::Call { f: fi, slot: s, err: false });
+                    q.push(Op::Call { f: fi, slot: s, err: false, stale: false });
                 }
                 *p = q;
             }
@@ -289,7 +293,7 @@ fn gen_scenario(seed: u64, index: u64, focus: &str, jitter: bool) -> Scenario {
             let s = fns[ci].slots[0];
             if !progs[owner].is_empty() {
                 let at = rng.usize(progs[owner].len().min(3));
-                progs[owner][at] = Op::Call { f: ci, slot: s, err: false };
+                progs[owner][at] = Op::Call { f: ci, slot: s, err: false, stale: false };
             }
         }
     }
@@ -332,10 +336,11 @@ fn exec_prog(t: usize, prog: &[Op], fns: &[(&'static FnDesc, BTreeMap<u32, Strin
     for op in prog {
         lockmon::yield_here();
         match op {
-            Op::Call { f, slot, err } => {
+            Op::Call { f, slot, err, stale } => {
                 let d = fns[*f].0;
                 vhooks::take_log();
                 vhooks::disarm_exec();
+                vhooks::arm_check(Some(*stale));
                 let serial = vhooks::stamp() | (1 << 62);
                 if *err {
                     vhooks::arm_exec(vhooks::ExecPlan { value: Some(serial), ok: false, len: None });
@@ -344,7 +349,6 @@ fn exec_prog(t: usize, prog: &[Op], fns: &[(&'static FnDesc, BTreeMap<u32, Strin
                     vhooks::arm_exec(vhooks::ExecPlan { value: Some(serial), ok: true, len: None });
                 }
                 vhooks::arm_pred(None);
-                vhooks::arm_check(None);
                 let inv = vhooks::stamp();
                 let r = std::panic::catch_unwind(|| (d.call)(*slot));
                 let ret = vhooks::stamp();
@@ -354,6 +358,7 @@ fn exec_prog(t: usize, prog: &[Op], fns: &[(&'static FnDesc, BTreeMap<u32, Strin
                     Err(_) => sh.viol.lock().unwrap().push(("C16".into(), format!("C16|CONC|{}|{}|panic-in-concurrent-call|", if d.is_async { "async" } else { "global" }, d.policy), format!("{} panicked under concurrency", d.fn_name), json!({"fid": d.fid}))),
                     Ok(co) => {
                         vhooks::disarm_exec();
+                        vhooks::arm_check(None);
                         // an Err is never cached: a call that did not run the body must have been
                         // served the function's (Ok) value; one that ran an Err script returns it
                         let okv = if *err && executed {
@@ -517,7 +522,7 @@ fn run_scenario(rep: &mut Report, sc: &mut Scenario, seed: u64, mode: &str, focu
         let p = p.clone();
         let fnsv = fnsv.clone();
         let sh = shared.clone();
-        let unique = focus == "C12";
+        let unique = focus == "C12" || focus == "C01";
         progs.push(Box::new(move || exec_prog(t, &p, &fnsv, &sh, nthreads, unique)));
     }
     rep.count("CONC", "schedules", 1);
@@ -604,7 +609,7 @@ fn run_scenario(rep: &mut Report, sc: &mut Scenario, seed: u64, mode: &str, focu
         }
         let calls: Vec<&CallRec> = recs.iter().filter(|r| r.f == fi).collect();
         // C15 conservation
-        if let Some(st) = cachelito_core::stats_registry::get(d.reg_name) {
+        if let (Some(st), false) = (cachelito_core::stats_registry::get(d.reg_name), d.has_invalidate_on) {
             let execs = calls.iter().filter(|r| r.executed).count() as u64;
             rep.count("C15", "conservation_checks_at_quiescence", 1);
             if st.hits() + st.misses() != calls.len() as u64 || st.misses() != execs {
@@ -614,7 +619,7 @@ fn run_scenario(rep: &mut Report, sc: &mut Scenario, seed: u64, mode: &str, focu
         }
         // C03 / C14 shared visibility: no execution after a storing call returned (unbounded, never invalidated)
         let never_evicts = d.limit.map_or(true, |n| f.slots.len() <= n);
-        if never_evicts && d.ttl.is_none() && d.max_memory.is_none() && !sc.has_invalidation[fi] {
+        if never_evicts && d.ttl.is_none() && d.max_memory.is_none() && !sc.has_invalidation[fi] && !d.has_invalidate_on {
             for c in calls.iter().filter(|r| r.executed) {
                 rep.count("C03", "executions_checked_against_history", 1);
                 if d.is_result {
@@ -626,6 +631,27 @@ fn run_scenario(rep: &mut Report, sc: &mut Scenario, seed: u64, mode: &str, focu
                     let p = if focus == "C03" { "C03" } else if d.is_result && (focus == "C09" || calls.iter().any(|x| x.ran_err && x.slot == c.slot)) { "C09" } else { p };
                     fail(rep, p, "executed-after-a-storing-call-returned", f, format!("{} slot {}: thread {} executed the body (invoked at {}) although thread {}'s executing call had returned at {}", d.fn_name, c.slot, c.thread, c.inv, prev.thread, prev.ret), json!({"fid": d.fid}));
                     return Outcome { status: "ok" };
+                }
+            }
+        }
+        // C01 under concurrency (values unique per execution): "once the value stored for some
+        // arguments has been replaced the old value is never served again" - a call must not be
+        // served value v if another execution for the same key, which started after v's own
+        // execution had returned, stored its (different) value and returned before the call began
+        if focus == "C01" {
+            for c in calls.iter().filter(|c| !c.executed) {
+                match calls.iter().find(|e| e.executed && e.slot == c.slot && e.value == c.value) {
+                    None => {
+                        fail(rep, "C01", "served-value-nobody-produced", f, format!("{} slot {}: served value {:x} was produced by no execution for that key", d.reg_name, c.slot, c.value), json!({"fid": d.fid}));
+                        return Outcome { status: "ok" };
+                    }
+                    Some(e1) => {
+                        rep.count("C01", "served_values_checked_against_history", 1);
+                        if let Some(e2) = calls.iter().find(|e2| e2.executed && !e2.ran_err && e2.slot == c.slot && e2.value != c.value && e1.ret < e2.inv && e2.ret < c.inv) {
+                            fail(rep, "C01", "replaced-value-served-again", f, format!("{} slot {}: thread {} was served value {:x} (call invoked at {}) although a later execution (thread {}, {}..{}) had stored {:x} after the execution that produced the served value had returned at {}", d.reg_name, c.slot, c.thread, c.value, c.inv, e2.thread, e2.inv, e2.ret, e2.value, e1.ret), json!({"fid": d.fid, "attrs": d.attr_text}));
+                            return Outcome { status: "ok" };
+                        }
+                    }
                 }
             }
         }
